@@ -49,7 +49,7 @@ def main(tier, rep):
             # every configuration sees every sequence in thorough; a rotating third in quick
             if tier == "quick" and pick.random() >= 0.15:
                 continue
-            if tier == "thorough" and (si + ci) % 4 != 0:
+            if tier == "thorough" and (si + ci) % 6 != 0:
                 continue
             cfg = L.Cfg(default_noreply=(n % 2 == 0), **ce)
             steps = []
